@@ -908,7 +908,7 @@ func (p *ICA) Finish(w *sim.World) {
 func icaCheck(prop, rule string, nontriv []string, tune func(o *ICAOptions, r *rand.Rand), extra func(ck *sim.Check)) {
 	ck := &sim.Check{
 		Prop: prop, Rule: rule, NonTrivPrefixes: nontriv,
-		Worlds: map[string]int{"quick": 64, "thorough": 1000},
+		Worlds: map[string]int{"quick": 160, "thorough": 1000},
 		NewProfile: func(cfg sim.WorldConfig) sim.Profile {
 			var o ICAOptions
 			if err := json.Unmarshal(cfg.Extra, &o); err != nil {
